@@ -311,3 +311,23 @@ Definition run_free (r : option (op * jpc)) : bool := match r with Some (OFree, 
 
 Definition reachable (items : list item) (s : state) : Prop := exists tr, run (init items) tr = Some s.
 Definition is_process (e : event) : bool := match e with EProcess _ => true | _ => false end.
+
+(* ---------- a bound on the number of steps the pipe, the object and the chute can take without the environment ---------- *)
+Fixpoint lsum {A} (f : A -> nat) (l : list A) : nat := match l with [] => 0 | x :: l' => f x + lsum f l' end.
+Definition wcost (w : wpc) : nat :=
+  match w with WCall _ => 16 | WUpgrade => 15 | WEnq => 14 | WDropRc => 7 | WTake => 2 | WDone => 0 end.
+Definition rcost (r : option (op * jpc)) : nat :=
+  match r with
+  | None => 0
+  | Some (OPoll _, JNew) => 5 | Some (OPoll _, JLockPf) => 4 | Some (OPoll _, JPoll) => 3
+  | Some (OPoll _, JProc _) => 4 | Some (OPoll _, JClear) => 1
+  | Some (_, _) => 1
+  end.
+Definition measure (s : state) : nat :=
+  lsum wcost s.(wakes) + 6 * length s.(opq) + rcost s.(running) + 2 * length s.(ready) + Nat.b2n s.(chute).
+
+(* ---------- one-shot wakers ---------- *)
+Definition poll_id (o : op) : option nat := match o with OPoll k => Some k | _ => None end.
+Definition ntaken (c : list wk) : nat := lsum (fun x => match x with WkTaken => 1 | _ => 0 end) c.
+(* wake threads that have consumed a waker (or are the initial poll) and have not yet scheduled / given up *)
+Definition npend (ws : list wpc) : nat := lsum (fun w => match w with WUpgrade | WEnq => 1 | _ => 0 end) ws.
